@@ -269,8 +269,8 @@ def judge_epics_worker(spec, names, k, res):
         res.violate(V("epics-io-worker-failed", out.get("error", "")[-300:], site="EpicsIo"), case)
         return
     for run_name in ("base", "ext", "divided"):
-        starts = out["out"].get(run_name, {}).get("__ioc_starts__")
-        if starts != 1:
+        starts = out["out"].get(run_name, {}).get("__ioc_starts__", 1)
+        if starts is not None and starts != 1:
             res.violate(V("epics-records-not-served", f"{run_name} run ({'only alpha hosted here, ' + str(names[1:]) + ' elsewhere' if run_name == 'divided' else spec['runs'].get(run_name)}): "
                           f"the process-wide IOC was started {starts} times once the EPICS adapters hosted here were ready (expected once): their records are not served",
                           site="EpicsIo", extension="epics-io", run=run_name), case)
